@@ -158,11 +158,13 @@ fn helper_oracle(c: &HelperCase, cl: &mut u64) -> Result<(), Failure> {
                 let (lo, hi) = (a[i].min(b[i]), a[i].max(b[i]));
                 let tol = 4.0 * f64::EPSILON * (lo.abs().max(hi.abs()).max(1e-300));
                 for c in [c1[i], c2[i]] {
-                    ensure_that!(c >= lo - tol && c <= hi + tol, "C13 arithmetic_crossover not a convex combination", "position {i}: child gene {c:?} outside [{lo:?}, {hi:?}] (alpha {:?})", al[i]);
+                    // `hi + tol` overflows for genes near f64::MAX: a convex combination of finite genes is finite
+                    ensure_that!(c >= lo - tol && c <= hi + tol && (c.is_finite() || !(lo.is_finite() && hi.is_finite())), "C13 arithmetic_crossover not a convex combination", "position {i}: child gene {c:?} outside [{lo:?}, {hi:?}] (alpha {:?})", al[i]);
                 }
                 let s = c1[i] + c2[i];
                 let want = a[i] + b[i];
-                ensure_that!((s - want).abs() <= 8.0 * f64::EPSILON * (a[i].abs() + b[i].abs()).max(1e-300), "C13 arithmetic_crossover does not conserve the gene sum", "position {i}: children sum {s:?}, parents sum {want:?} (alpha {:?})", al[i]);
+                // the sum of two same-sign genes near f64::MAX is not representable: nothing to compare then
+                ensure_that!(!want.is_finite() || (s - want).abs() <= 8.0 * f64::EPSILON * (a[i].abs() + b[i].abs()).max(1e-300), "C13 arithmetic_crossover does not conserve the gene sum", "position {i}: children sum {s:?}, parents sum {want:?} (alpha {:?})", al[i]);
                 let w1 = al[i] * a[i] + (1.0 - al[i]) * b[i];
                 ensure_that!(c1[i].to_bits() == w1.to_bits(), "C13 arithmetic_crossover weights", "position {i}: child1 {:?}, alpha*p1 + (1-alpha)*p2 = {w1:?}", c1[i]);
             }
@@ -321,6 +323,16 @@ fn helper_cases(thorough: bool) -> Vec<HelperCase> {
     }
     let alphas = [0.0, 1.0, 0.5, 0.25, 0.1, 1.0 / 3.0, 0.999_999, 1e-12];
     let vals = [0.0, 1.0, -1.0, 3.5, -7.25, 1e6, -1e-6, 123.456];
+    // genes whose sum is beyond f64::MAX (each child still is a convex combination, hence finite); f64::MAX itself is left
+    // out for equal genes, where alpha*x + (1-alpha)*x may round one ulp up
+    let huge = [1.0e308, 1.5e308, 1.7e308, -1.0e308, -1.6e308, 8.9e307, 9.1e307];
+    for a in huge {
+        for b in huge {
+            for al in alphas {
+                out.push(HelperCase::Arithmetic { p1: vec![Fb::of(a), Fb::of(b), Fb::of(1.0)], p2: vec![Fb::of(b), Fb::of(a), Fb::of(a)], alphas: vec![Fb::of(al), Fb::of(1.0 - al), Fb::of(al)] });
+            }
+        }
+    }
     for a in vals {
         for b in vals {
             for al in alphas {
